@@ -587,12 +587,18 @@ func (fe *FnEnc) loadVal(p Val, t types.Type, pos token.Pos, src ssa.Value) Val 
 	s := fe.s
 	a := fe.ptrAddr(p)
 	fe.panicCheck("nilderef", not(a.Nil), pos)
+	fe.guardCheck(a, false, pos)
+	if a.Root == rootCell && len(a.Steps) == 0 {
+		if pv, ok := fe.mem.ptrs[a.Cell]; ok {
+			return pv
+		}
+	}
 	switch u := types.Unalias(t).Underlying().(type) {
 	case *types.Slice:
 		es := s.sortOf(u.Elem())
 		cur := s.load(fe.mem, a)
 		ln := s.name("ln", "Int", s.seqLen(es, cur))
-		s.assert("(<= 0 " + ln + ")")
+		s.assert("(and (<= 0 " + ln + ") (< " + ln + " 9223372036854775808))")
 		return Val{T: t, View: &View{Origin: a, Off: "0", Len: ln, Elem: u.Elem()}}
 	case *types.Map:
 		return Val{T: t, Map: &MapV{Origin: a, T: u}}
@@ -616,11 +622,20 @@ func (fe *FnEnc) loadVal(p Val, t types.Type, pos token.Pos, src ssa.Value) Val 
 func (fe *FnEnc) storeInstr(x *ssa.Store) {
 	a := fe.ptrAddr(fe.val(x.Addr))
 	fe.panicCheck("nilderef", not(a.Nil), x.Pos())
+	fe.guardCheck(a, true, x.Pos())
 	v := fe.val(x.Val)
 	fe.storeTo(a, v)
 }
 
 func (fe *FnEnc) storeTo(a *Addr, v Val) {
+	if a.Root == rootCell && len(a.Steps) == 0 {
+		if v.Term == "" && v.Addr != nil && (len(v.Addr.Steps) > 0 || v.Addr.Root != rootHeap) {
+			// a local of pointer type holding an interior address: kept at generator level
+			fe.mem.ptrs[a.Cell] = v
+			return
+		}
+		delete(fe.mem.ptrs, a.Cell)
+	}
 	term := fe.valTerm(v)
 	keys := fe.s.store(fe.mem, a, term)
 	fe.recordMod(keys)
@@ -821,11 +836,12 @@ func (fe *FnEnc) slice(x *ssa.Slice) Val {
 		} else {
 			hi = v.View.Len
 		}
-		// Go allows hi <= cap; we only know len (stricter check documented in DESIGN)
-		fe.panicCheck("slice", fmt.Sprintf("(and (<= 0 %s) (<= %s %s) (<= %s %s))", lo, lo, hi, hi, v.View.Len), x.Pos())
+		// Go allows hi <= cap
+		fe.panicCheck("slice", fmt.Sprintf("(and (<= 0 %s) (<= %s %s) (<= %s %s))", lo, lo, hi, hi, fe.viewCap(v.View)), x.Pos())
 		nv := *v.View
 		if lo != "0" {
 			nv.Off = s.name("so", "Int", "(+ "+v.View.Off+" "+lo+")")
+			nv.Cap = "(- " + fe.viewCap(v.View) + " " + lo + ")"
 		}
 		nv.Len = s.name("sl", "Int", "(- "+hi+" "+lo+")")
 		if v.View.NilFlag == "true" {
@@ -952,4 +968,55 @@ func (fe *FnEnc) explicitPanic(x *ssa.Panic) {
 func (fe *FnEnc) siteLabelN(kind string) string {
 	fe.top.sites[kind]++
 	return fmt.Sprintf("@%d", fe.top.sites[kind])
+}
+
+// guardCheck: an access to a field declared guarded_by a mutex needs the
+// lock (read: any mode, write: exclusive).  Checked in methods of the struct.
+func (fe *FnEnc) guardCheck(a *Addr, write bool, pos token.Pos) {
+	if a.Root != rootHeap || len(a.Steps) == 0 || a.Steps[0].Kind != stField {
+		return
+	}
+	gd := fe.g.guardFor(a.RootT)
+	if gd == nil {
+		return
+	}
+	top := fe.top
+	recv := top.fn.Signature.Recv()
+	if recv == nil {
+		return
+	}
+	rt := recv.Type()
+	if p, ok := rt.(*types.Pointer); ok {
+		rt = p.Elem()
+	}
+	if !types.Identical(rt, a.RootT) {
+		return
+	}
+	st, _ := structOf(a.RootT)
+	fname := st.Field(a.Steps[0].Field).Name()
+	if !gd.Fields[fname] {
+		return
+	}
+	gk := "lock_" + mangle(types.TypeString(a.RootT, nil)) + "_" + gd.Mutex
+	fe.g.ghostSorts[gk] = "(Array Int Int)"
+	cur := fe.s.ghostGet(fe.mem, gk, "(Array Int Int)")
+	stt := "(select " + cur + " " + a.Ref + ")"
+	kind := "lock:read"
+	cond := "(>= " + stt + " 1)"
+	if write {
+		kind = "lock:write"
+		cond = "(= " + stt + " 2)"
+	}
+	top.sites[kind]++
+	fe.check(kind, fmt.Sprintf("@%d.%s", top.sites[kind], fname), cond, "access to guarded field "+fname+" with the lock held", pos)
+}
+
+// viewCap returns the (symbolic) capacity of a slice view: unknown but >= len.
+func (fe *FnEnc) viewCap(v *View) string {
+	if v.Cap == "" {
+		c := fe.s.fresh("cap", "Int")
+		fe.s.assert("(and (>= " + c + " " + v.Len + ") (< " + c + " 9223372036854775808))")
+		v.Cap = c
+	}
+	return v.Cap
 }
